@@ -336,6 +336,7 @@ func TestC03(t *testing.T) {
 	go func() {
 		defer close(binDone)
 		parallelCases(vlib.Scale(7, 70), 4, func(i int) { binEconomy(ev, "C03", i) })
+		parallelCases(vlib.Scale(6, 60), 3, func(i int) { binCutOffHangUp(ev, i) })
 	}()
 	for _, driver := range vlib.Drivers() {
 		driver := driver
